@@ -1260,6 +1260,40 @@ func rejectedBetween() [][]opRec {
 	return hs
 }
 
+// zeroGroupHistories: keys parsed from CONSTRUCTED strings whose base-58 digit string has an aligned all-zero group
+// (hdref.ZeroRunPayload; a derived key has one with probability 58^-5 per position): the key and its relatives must
+// keep printing as themselves (the mirror prints with the harness's own Base58).
+func zeroGroupHistories(r *vh.RNG, widths []int) [][]opRec {
+	var hs [][]opRec
+	H := uint32(hdkeychain.HardenedKeyStart)
+	for lo := 10; lo <= 100; lo += 5 {
+		for _, w := range widths {
+			hi := lo + w
+			if hi > 105 {
+				continue
+			}
+			sc := validScalar(r)
+			sc[0] &= 0x7f
+			base := (&pure{ver: clone(savedIDs[(lo/5+w)%len(nets)].priv[:]), key: sc, cc: r.Bytes(32), fp: r.Bytes(4), depth: uint8(r.Intn(200)), num: r.U32(), priv: true}).payload()
+			var p []byte
+			ok := false
+			for try := 0; try < 8 && !ok; try++ {
+				p, ok = hdref.ZeroRunPayload(base, r.Bytes, lo, hi)
+			}
+			if !ok {
+				continue
+			}
+			s := b58enc(append(clone(p), sha256d(p)[:4]...))
+			if !hdref.HasZeroRun(s, lo, hi) {
+				continue
+			}
+			hs = append(hs, []opRec{{Kind: "FromString", Str: s}, {Kind: "String", K: 0}, {Kind: "Child", K: 0, I: H + 1}, {Kind: "String", K: 1}, {Kind: "Neuter", K: 0},
+				{Kind: "String", K: 2}, {Kind: "FromString", Str: s}, {Kind: "Zero", K: 0}, {Kind: "String", K: 3}, {Kind: "Child", K: 3, I: 2}})
+		}
+	}
+	return hs
+}
+
 // allNetsHistories: every kind of key is moved through ALL SIX networks (SetNet, String, Neuter, String of the
 // neutered key, Child), chipnet included, forwards and backwards; the mirror prints with the constants of chaincfg.
 func allNetsHistories() [][]opRec {
@@ -1512,6 +1546,17 @@ func main() {
 	for hi, h := range rejectedBetween() {
 		runAndRecord(h, "rejected_creator_between", !cfg.Search && hi%13 == 0, true)
 		runAndRecord(h, "rejected_creator_between_shallow", false, false)
+	}
+	{
+		widths := []int{5, 10, 20}
+		if cfg.Thorough() || cfg.Search {
+			widths = []int{5, 10, 15, 20, 30}
+		}
+		zg := zeroGroupHistories(rng.Fork("zerogroups"), widths)
+		rep.Extra["zero_digit_group_histories"] = len(zg)
+		for hi, h := range zg {
+			runAndRecord(h, "parsed_from_string_with_zero_digit_group", !cfg.Search && hi%12 == 0, hi%2 == 0)
+		}
 	}
 	for hi, h := range allNetsHistories() {
 		runAndRecord(h, "all_six_nets", !cfg.Search && hi%4 == 0, true)
